@@ -682,7 +682,10 @@ fn run_bounded(a: &Args) {
 
     // ---- 4. random histories from random valid raw parts, capacities <= 64
     let n_rand = if a.thorough() { 60_000 } else { 6_000 };
-    for _ in 0..n_rand {
+    // the last two histories are LONG: > 65536 operations on one buffer (whatever an implementation counts per
+    // operation — positions, generations — must not wrap into a wrong answer)
+    for it in 0..n_rand + 2 {
+        let long = it >= n_rand;
         let cap = match rng.below(4) { 0 => 1 + rng.usize_below(4), 1 => 1 + rng.usize_below(8), 2 => 1 + rng.usize_below(16), _ => 1 + rng.usize_below(64) };
         let mut kind = *rng.pick(&KINDS);
         if kind == "arr" && !ARR_SIZES.contains(&cap) { kind = *rng.pick(&["vec", "box", "mut"]); }
@@ -697,7 +700,7 @@ fn run_bounded(a: &Args) {
             }
         };
         let mut v = Vals(1000);
-        let n_ops = 1 + rng.usize_below(40);
+        let n_ops = if long { st.count("long_history_gt_65536_ops"); 66_000 + rng.usize_below(500) } else { 1 + rng.usize_below(40) };
         let mut ops = vec![];
         // a rough running length only to aim indices at the interesting boundary
         let mut est = match ctor { BCtor::Raw(_, l) => l, BCtor::Full => cap, BCtor::Empty => 0 };
@@ -1107,14 +1110,16 @@ fn run_fixed(a: &Args) {
 
     // ---- 5. random histories, N <= 64
     let n_rand = if a.thorough() { 60_000 } else { 6_000 };
-    for _ in 0..n_rand {
+    // the last two histories are LONG (> 65536 operations on one delay line)
+    for it in 0..n_rand + 2 {
+        let long = it >= n_rand;
         let n = match rng.below(4) { 0 => 1 + rng.usize_below(5), 1 => 1 + rng.usize_below(8), 2 => 1 + rng.usize_below(16), _ => 1 + rng.usize_below(64) };
         let mut kind = *rng.pick(&KINDS_F);
         if kind.ends_with("arr") && !ARR_SIZES.contains(&n) { kind = *rng.pick(&["vec", "tbox", "tmut", "tvec", "box", "mut"]); }
         let data: Vec<i32> = (0..n).map(|_| rng.range(-50, 50) as i32).collect();
         let ctor = if rng.chance(1, 8) { FCtor::From } else { FCtor::Raw(if rng.chance(1, 4) { n - 1 } else { rng.usize_below(n) }) };
         let mut v = Vals(1000);
-        let n_ops = 1 + rng.usize_below(40);
+        let n_ops = if long { st.count("long_history_gt_65536_ops"); 66_000 + rng.usize_below(500) } else { 1 + rng.usize_below(40) };
         let pushy = rng.chance(1, 3); // pure push histories keep the "N pushes earlier" oracle alive
         let mut ops = vec![];
         let mut f = match ctor { FCtor::Raw(f) => f, FCtor::From => 0 };
